@@ -111,7 +111,10 @@ class C14(Prop):
 
 CRASH_POINTS = [0, 1, 2, 3, 4, 10, 11, 12, 13, 14, 15, 17, 16]
 PRIOR = ["absent", "complete", "other-version", "other-data", "meta-missing", "meta-truncated", "meta-garbage",
-         "index-missing", "index-damaged", "index-emptied"]
+         "index-missing", "index-damaged", "index-emptied",
+         # an index that opens but does NOT hold the shipped data (committed empty), under metadata of
+         # this version whose data hash is wrong / absent / null: "written for other data"
+         "stale-wrong-hash", "stale-no-hash", "stale-null-hash"]
 
 
 def make_prior(xdg, kind, template):
@@ -143,6 +146,18 @@ def make_prior(xdg, kind, template):
     elif kind == "index-emptied":
         for f in (facts / "index").iterdir():
             f.unlink()
+    elif kind.startswith("stale-"):
+        # a start killed right after the index was created leaves a committed EMPTY index
+        shutil.rmtree(facts / "index")
+        meta.unlink()
+        dbopen("disk", ["c"], xdg=xdg, crash=11, tag="c15prior")
+        if kind == "stale-wrong-hash":
+            j["database_hash"] = "f" * 32
+        elif kind == "stale-no-hash":
+            j.pop("database_hash", None)
+        else:
+            j["database_hash"] = None
+        meta.write_text(json.dumps(j))
 
 
 def meta_state(xdg, current):
@@ -292,7 +307,12 @@ class C17(Prop):
     def cases(self, rng, tier):
         from . import translator as T
         m = T.meta()
-        ids = sorted(set(m["idmap"].values()))
+        if m is None:
+            # the tables could not be extracted (reported as a broken obligation by the engine):
+            # fall back to the identifiers recorded at the pinned commit
+            ids = sorted(int(l.split("\t")[1]) for l in (C.VERIF / "pinned" / "unit_bytes.tsv").read_text().splitlines() if l)
+        else:
+            ids = sorted(set(m["idmap"].values()))
         bases = ["KiloGram", "Candela", "Meter", "Second", "Ampere", "Kelvin", "Mole", "Byte"]
         keys = [f"D{i}" for i in ids] + bases
         out = []
@@ -338,6 +358,21 @@ class C17(Prop):
                 got = C.unhex(f[2]) if len(f) > 2 else d
                 fails.append((f"stored-unit:{r[0]}", f"cbor deunitname {r[3]}",
                               f"bytes written for unit {r[0]} ({C.unhex(r[2])!r}, id {r[1]}) by the pinned build now decode as {got!r}"))
+        # every reference unit name: what is typed, written and read back is displayed the same
+        from . import refsweep as R
+        names = sorted({r[0] for r in R.rows() if R.typeable(r[0])})
+        rc, rt, err = C.run_lines(C.harness_bin(False), [f"cbor unitword {C.hexs(nm)}" for nm in names], watchdog=10)
+        for nm, o in zip(names, rt):
+            n += 1
+            f = o.split(" ")
+            if f[:2] == ["B", "OK"] and f[2] == f[3]:
+                ok += 1
+            elif f[:2] == ["B", "NOPARSE"]:
+                ok += 1   # not a unit word of this build: C05's business
+            else:
+                shown = (C.unhex(f[2]), C.unhex(f[3])) if len(f) > 3 else o
+                fails.append((f"unitword:{nm}", f"cbor unitword {C.hexs(nm)}",
+                              f"unit word {nm!r} is written and read back as a different unit: {shown}"))
         pinned = [l.split("\t") for l in (C.VERIF / "pinned" / "facts.tsv").read_text().splitlines() if l]
         now = {}
         for f in dump_facts():
